@@ -192,10 +192,10 @@ def exactSums (ts : List Trans) : List Rat :=
   (ts.foldl (fun (acc : Rat × List Rat) t => let s := acc.1 + probOf t; (s, acc.2 ++ [s])) (0, [])).2
 
 /-- independent reading of the property for one draw: the chosen transition's exact cumulative
-    interval contains `r` up to the f32 rounding slack `i·2^-25` -/
+    interval contains `r` up to the f32 rounding slack `(i+1)·2^-24` -/
 def drawPlausible (ts : List Trans) (r : Rat) (res : Option Nat) : Bool :=
   let sums := exactSums ts
-  let slack (i : Nat) : Rat := ((i + 1 : Nat) : Rat) * two 25
+  let slack (i : Nat) : Rat := ((i + 1 : Nat) : Rat) * two 24
   match res with
   | none => decide (sums.getLast?.getD 0 - slack ts.length ≤ r)
   | some t =>
@@ -273,9 +273,9 @@ def runC06Case (c : CaseBlock) : IO Unit := do
       if get "callsbad" != 0 then tags := tags ++ ["calls"]
       report c tags
       if !wf then IO.println s!"mon C06 FAIL {c.id} accepted-vector-not-wellformed"
-      -- the property: share of target i within 2^-23 + 2^-25 of p_i; residual share likewise
+      -- the property: share of target i within 2^-23 + 2^-24 of p_i (`C06_share_close`); residual share likewise
       let N : Rat := (C06.N : Rat)
-      let tol : Rat := two 23 + two 25
+      let tol : Rat := two 23 + two 24
       let mut bad : List String := []
       for (t, n) in ts.zip implCounts do
         let share : Rat := (n : Rat) / N
@@ -283,7 +283,7 @@ def runC06Case (c : CaseBlock) : IO Unit := do
         if !(decide (-tol ≤ d) && decide (d ≤ tol)) then bad := bad ++ [s!"target={t.target}:count={n}"]
       let sumP := ts.foldl (fun a t => a + probOf t) (0 : Rat)
       let dn : Rat := (get "none" : Rat) / N - (1 - sumP)
-      let tolN : Rat := two 23 + (ts.length : Rat) * two 25
+      let tolN : Rat := two 23 + (ts.length : Rat) * two 24
       if !(decide (-tolN ≤ dn) && decide (dn ≤ tolN)) then bad := bad ++ [s!"none:count={get "none"}"]
       if implCounts.foldl (· + ·) 0 + get "none" + get "other" != C06.N then bad := bad ++ ["counts-do-not-add-up"]
       if probOne && implCounts.head? != some C06.N then bad := bad ++ ["probability-one-not-always-taken"]
